@@ -209,10 +209,16 @@ func (h *c06gen) request() []byte {
 		r.Read(body)
 	}
 	fr := rawFrame(t, tag, body)
-	switch r.Intn(30) {
-	case 0: // truncated body, size fixed up
+	switch r.Intn(14) {
+	case 0, 2: // truncated body, size fixed up: a few bytes off the end, or anywhere
 		if len(fr) > 7 {
-			fr = fr[:7+r.Intn(len(fr)-7)]
+			cut := 7 + r.Intn(len(fr)-7)
+			if r.Intn(2) == 0 {
+				if k := 1 + r.Intn(8); len(fr)-k >= 7 {
+					cut = len(fr) - k
+				}
+			}
+			fr = fr[:cut]
 			binary.LittleEndian.PutUint32(fr, uint32(len(fr)))
 		}
 	case 1: // trailing junk inside the frame
